@@ -407,7 +407,7 @@ func c11LongPolicy() spec.Policy {
 		try := p
 		try.Groups = []spec.Group{{Action: actErrno, Conds: append(append([]spec.CondEntry(nil), p.Groups[0].Conds...), ce)}}
 		cp, err, pan := compilePolicy(&try)
-		if err != nil || pan != nil || len(cp.raw) > 3600 {
+		if err != nil || pan != nil || len(cp.insts) > 3600 {
 			break
 		}
 		p = try
